@@ -381,6 +381,49 @@ func selectorFacts() {
 		"selected = ensemble minus the node being left; SetSelected; the single-server selector picks the target; target == from is refused")
 }
 
+// clientFacts: batcher loop and multi-shard get.
+func clientFacts() {
+	f := parse("oxia/batch/batcher.go")
+	fn := funcDecl(f, "batcherImpl", "Run")
+	body := ""
+	if fn != nil {
+		body = squash(src(fn.Body))
+	}
+	rearm := strings.Contains(body, "if !canAdd { completeBatch() newBatch() }") &&
+		strings.Contains(body, "newBatch := func() { batch = b.batchFactory() if b.linger > 0 { timer = time.NewTimer(b.linger) timeout = timer.C } }")
+	add("batcherRearmsTimerAfterSplit", "Bool", boolLean(rearm), "oxia/batch/batcher.go: (*batcherImpl).Run",
+		"after a size split the new batch is created by newBatch(), which arms the linger timer")
+	rb := parse("oxia/internal/batch/read_batch.go")
+	dr := funcDecl(rb, "readBatch", "doRequest")
+	db := ""
+	if dr != nil {
+		db = squash(src(dr.Body))
+	}
+	fresh := strings.Contains(db, "response := &proto.ReadResponse{} for {") && !strings.Contains(db, "b.response")
+	add("readBatchFreshResponsePerAttempt", "Bool", boolLean(fresh), "oxia/internal/batch/read_batch.go: (*readBatch).doRequest",
+		"every attempt accumulates the stream into a response object created inside doRequest")
+	wb := parse("oxia/internal/batch/write_batch.go")
+	wh := funcDecl(wb, "writeBatch", "handle")
+	whb := ""
+	if wh != nil {
+		whb = squash(src(wh.Body))
+	}
+	pos := strings.Contains(whb, "for i, put := range b.puts { put.Callback(response.Puts[i], nil) }") &&
+		strings.Contains(whb, "for i, _delete := range b.deletes { _delete.Callback(response.Deletes[i], nil) }") &&
+		strings.Contains(whb, "for i, deleteRange := range b.deleteRanges { deleteRange.Callback(response.DeleteRanges[i], nil) }")
+	add("writeBatchHandlePositional", "Bool", boolLean(pos), "oxia/internal/batch/write_batch.go: (*writeBatch).handle",
+		"the i-th call of each list gets the i-th response of the matching list")
+	a := parse("oxia/async_client_impl.go")
+	mg := funcDecl(a, "clientImpl", "doMultiShardGet")
+	mb := ""
+	if mg != nil {
+		mb = squash(src(mg.Body))
+	}
+	ret := strings.Contains(mb, "if err != nil { ch <- toGetResult(nil, key, err) close(ch) counter = 0 return }")
+	add("multiShardGetReturnsAfterError", "Bool", boolLean(ret), "oxia/async_client_impl.go: doMultiShardGet",
+		"the error branch of the per-shard callback ends with return")
+}
+
 // moreFacts collects the facts of the other properties (added per property).
 func moreFacts() {
 	walFacts()
@@ -390,4 +433,5 @@ func moreFacts() {
 	shardFacts()
 	notificationFacts()
 	selectorFacts()
+	clientFacts()
 }
